@@ -24,18 +24,28 @@ def lift_ite(term, limit=256):
     return _lift(t, [limit])
 
 
-def _find_ite(t):
-    # first ite in pre-order that is not under a lambda / comprehension binder
+def _find_ite(t, bound=()):
+    """First ite in pre-order whose condition does not depend on an enclosing lambda / comprehension binder (such an ite can be
+    lifted out of the binder:  lambda x: (A if c else B)  ==  (lambda x: A) if c else (lambda x: B)  when c does not mention x)."""
     if not isinstance(t, tuple):
         return None
     h = head(t)
     if h == "ite":
-        return t
-    if h in ("lam", "comp"):
+        if not bound or not any((x[0] == "lparam" and x[1] in bound) or (x[0] == "citer" and x[1] in bound) for x in walk(t[1])):
+            inner = _find_ite(t[1], bound)       # a condition that itself holds a conditional is split first
+            return inner if inner is not None else t
+    if h == "lam":
+        return _find_ite(t[3], bound + (t[1],))
+    if h == "comp":
+        b2 = bound + (t[4],)
+        for x in (t[2], t[3]):
+            r = _find_ite(x, b2)
+            if r is not None:
+                return r
         return None
     for x in t:
         if isinstance(x, tuple):
-            r = _find_ite(x)
+            r = _find_ite(x, bound)
             if r is not None:
                 return r
     return None
@@ -103,7 +113,7 @@ class Equiv:
         t = strip_all(term)
         for rw in self.rewrites:
             t = rewrite(t, rw)
-        return lift_ite(t)
+        return path_refine(lift_ite(t))
 
     def leaf_eq(self, a, b):
         ha, hb = head(strip(a)), head(strip(b))
@@ -146,7 +156,7 @@ class Equiv:
                     n = callee_name(x)
                     if n is None:
                         continue
-                    if n.startswith("pyrepseq.") or n in spec_calls or n in self.modelled:
+                    if n.startswith("pyrepseq.") or n.startswith("builtins.") or n in spec_calls or n in self.modelled:
                         continue
                     raise AnalysisBroken(f"call to {n} is outside the modelled vocabulary of this rule; cannot decide equality ({show(x, 100)})")
 
@@ -291,3 +301,34 @@ def close_loops(summary, term, _seen=None):
             return ("elem", t[2])
         return t
     return rewrite(term, rw)
+
+
+def compare_function(r, rule, qual, spec_src, what, fname=None, eq=None, spec_mod=None, assume=None, key="specification", close=True, cond_alias=None):
+    """Compare a function's return term with the return term of a specification function written as source text."""
+    s = r.A.summary(qual)
+    r.rep.analysed(qual)
+    fname = fname or qual.rsplit(".", 1)[1]
+    sp = r.A.summarize_source(spec_src, fname, spec_mod or s.func.module)
+    code = subst(s.ret, canon_params(s))
+    spec = subst(sp.ret, canon_params(sp))
+    if close:
+        code, spec = close_loops(s, code), close_loops(sp, spec)
+    eq = eq or Equiv(rewrites=std_rewrites())
+    return check_equiv(r.rep, rule, qual, what, code, spec, where_of(r.P, s.func, s.func.node), eq=eq, assume=assume, key=key, cond_alias=cond_alias)
+
+
+def path_refine(tree, guards=()):
+    """Path-sensitive refinement of a decision tree: on a path where ``x is None`` (or ``x == None``) holds, occurrences of x in the leaf
+    are replaced by the constant None.  (The value of an expression that was just tested against a constant is that constant.)"""
+    if head(tree) == "ite":
+        return ("ite", tree[1], path_refine(tree[2], guards + ((tree[1], True),)), path_refine(tree[3], guards + ((tree[1], False),)))
+    m = {}
+    from .nnabs import lits
+    for g, pol in guards:
+        for atom, p in lits(g, pol):
+            a = strip(atom)
+            if head(a) == "cmp" and a[1] in ("is", "==") and p and is_const(strip(a[3]), None) and not is_const(strip(a[2])):
+                m[strip(a[2])] = NONE
+            if head(a) == "cmp" and a[1] in ("isnot", "!=") and not p and is_const(strip(a[3]), None) and not is_const(strip(a[2])):
+                m[strip(a[2])] = NONE
+    return subst(tree, m) if m else tree
